@@ -92,7 +92,17 @@ Truncate == /\ pc = "truncate" /\ pc' = "done"
 Next == (Chmod \/ Chown \/ Utime \/ OpenForSize \/ Truncate) /\ UNCHANGED <<file0, attr>>
 Spec == Init /\ [][Next]_vars
 
+\* the five statements as one function (what a complete run of the helper leaves behind)
+HelperResult(f, a) ==
+  [content |-> IF a.has_size THEN Resize(IF ZeroOnOpen THEN <<>> ELSE f.content, a.size) ELSE f.content,
+   perm  |-> IF a.has_perm THEN a.perm ELSE f.perm,
+   uid   |-> IF a.has_own THEN a.uid ELSE f.uid,
+   gid   |-> IF a.has_own THEN a.gid ELSE f.gid,
+   atime |-> IF a.has_time THEN a.atime ELSE f.atime,
+   mtime |-> IF a.has_size THEN Now ELSE IF a.has_time THEN a.mtime ELSE f.mtime]
+
 (* ---- properties ---- *)
+StepsCompose == pc = "done" => file = HelperResult(file0, attr)      \* used by SetAttr_Session
 Verdict           == IF pc = "done" THEN Bad(file0, attr, file) ELSE {}
 LocalMeaning      == Verdict = {}                                   \* the statement of C31 on the model
 KeepsLeadingBytes == "P_keeps_leading_bytes" \notin Verdict         \* its "in particular" clause
